@@ -274,7 +274,8 @@ def run_scenario(opts, outs, layout, recs1, recs2, wd, report=None, want_json=Tr
     st = dict(reads=len(recs1), argv=argv, categories={}, disagreeing_pairs=0, multi_filter_reads=0)
     if r.exit != 0:
         V.append(("cli", f"cutadapt failed: exit={r.exit} {r.exc} {r.errors()[:1]}", {}))
-        return dict(violations=V, stats=st, result=r)
+        st["expected_counts"] = {}
+        return dict(violations=V, stats=st, result=r, json=None, router=router, got={})
     names1 = [a.name for a in a1]
     names2 = [a.name for a in a2]
     files = expected_files(opts, outs, layout, names1, names2)
